@@ -31,9 +31,9 @@ MAX_TIMEOUTS = {"quick": 1, "thorough": 20}
 REQUIRED = {"residue_classes": 600, "isomorphism_pairs_checked": 500, "same_name_different_content": 60,
             "virtual_sites_checked": 300, "vs_kinds": 7, "stacked_site_residues": 20, "optimiser_successes_rechecked": 300, "impropers_rechecked": 60,
             "user_templates": 40, "user_volumes": 60, "equivariance_checks": 500, "size_independence_checks": 25,
-            "optimiser_failures_seen": 30, "same_names_other_connectivity": 10, "two_templates_under_one_name": 8,
+            "optimiser_failures_seen": 30, "same_names_other_connectivity": 10, "two_templates_under_one_name": 8, "names_with_several_unoptimised_templates": 10,
             "templates_reported_optimised_rechecked": 500, "templates_reported_unoptimised": 50, "build_files_with_volumes_first": 40}
-CAP = {"opt": [], "blocks": [], "final": [], "failed": set()}
+CAP = {"opt": [], "blocks": [], "final": [], "failed": set(), "nfailed": {}}
 _done = False
 
 
@@ -74,6 +74,7 @@ def setup():
                 args = record.args if isinstance(record.args, (tuple, list)) else ()
                 name = str(args[0]) if args else msg.rsplit(" ", 1)[-1].rstrip(".")
                 CAP["failed"].add(name)
+                CAP["nfailed"][name] = CAP["nfailed"].get(name, 0) + 1
 
     def mk_gen(orig):
         def gen_templates(self, meta_molecule, template_graphs):
@@ -159,8 +160,8 @@ VS_KINDS = [("virtual_sites2", "1", 2, lambda r: ["%.3f" % r.uniform(0.1, 0.9)])
             ("virtual_sitesn", "1", 1, lambda r: [])]       # a site on top of a single atom (the CA site of Martini 3 proteins)
 
 
-def gen_residue(rng, resname, variant=0):
-    kind = rng.choice(["chain", "ring", "branch", "improper", "vs", "vs", "single", "frustrated", "frustrated_imp", "vs_nested"])
+def gen_residue(rng, resname, variant=0, kind=None):
+    kind = kind or rng.choice(["chain", "ring", "branch", "improper", "vs", "vs", "single", "frustrated", "frustrated_imp", "vs_nested"])
     atoms, bonds, angles, imps, vs = [], [], [], [], []
     cons = []
     # atom names are specific to the residue definition: residues with the same atom names and bonds are by
@@ -228,11 +229,13 @@ def gen_residue(rng, resname, variant=0):
         vs.append((sec, f, nreal, defs, pf(rng)))
         if ndef == 1:
             kind = "vs_stacked"
-    return {"name": resname, "kind": kind, "atoms": atoms, "bonds": bonds, "angles": angles, "imps": imps, "vs": vs, "cons": cons}
+    return {"name": resname, "kind": kind, "atoms": atoms, "bonds": bonds, "angles": angles, "imps": imps, "vs": vs, "cons": cons,
+            "site_type_z": bool(vs) and rng.random() < 0.4}
 
 
 def render(sysd):
-    L = ["[ defaults ]", "1 2 no 1.0 1.0", "[ atomtypes ]", "A 36.0 0.0 A 0.47 2.0", "B 36.0 0.0 A 0.40 2.0"]
+    L = ["[ defaults ]", "1 2 no 1.0 1.0", "[ atomtypes ]", "A 36.0 0.0 A 0.47 2.0", "B 36.0 0.0 A 0.40 2.0",
+         "Z 0.0 0.0 A 0.0 0.0"]          # a type without extent, for virtual sites
     for mt in sysd["moltypes"]:
         L += ["[ moleculetype ]", "%s 1" % mt["name"], "[ atoms ]"]
         k = 1
@@ -241,7 +244,8 @@ def render(sysd):
         for ri, r in enumerate(mt["res"]):
             first.append(k)
             for j, a in enumerate(r["atoms"]):
-                L.append("%d %s %d %s %s %d 0.0 %s" % (k + j, "A" if j % 2 == 0 else "B", ri + 1, r["name"], a, k + j,
+                L.append("%d %s %d %s %s %d 0.0 %s" % (k + j, "Z" if (a in ("VS", "VT", "VU") and r.get("site_type_z")) else
+                                                      "A" if j % 2 == 0 else "B", ri + 1, r["name"], a, k + j,
                                                       "0.0" if a in ("VS", "VT", "VU") else "36.0"))
             for i, j, b0 in r["bonds"]:
                 bonds.append("%d %d 1 %.3f 5000" % (k + i, k + j, b0))
@@ -299,6 +303,7 @@ def build_topology(text, workdir, name, build=None):
     del CAP["blocks"][:]
     del CAP["final"][:]
     CAP["failed"].clear()
+    CAP["nfailed"].clear()
     GenerateTemplates(topology=top, max_opt=10, skip_filter=False).run_system(top)
     return top
 
@@ -312,7 +317,10 @@ def run_case(cid, rng, workdir):
     pool = {}
     for nm in ["RA", "RB", "RC", "RD"][:rng.randint(1, 4)]:
         pool[(nm, 0)] = gen_residue(rng, nm, 0)
-        if rng.random() < 0.35:
+        if pool[(nm, 0)]["kind"].startswith("frustrated") and rng.random() < 0.6:
+            # two residues under one name that both cannot be optimised: each failure has to be reported
+            pool[(nm, 1)] = gen_residue(rng, nm, 1, kind=rng.choice(["frustrated", "frustrated_imp"]))
+        elif rng.random() < 0.35:
             pool[(nm, 1)] = gen_residue(rng, nm, 1)
         elif rng.random() < 0.2 and pool[(nm, 0)]["kind"] in ("chain", "branch") and len(pool[(nm, 0)]["atoms"]) >= 3:
             # same residue name, same atom names, other connectivity (e.g. EC1-O1-EC2 versus O1-EC1-EC2)
@@ -530,6 +538,36 @@ def run_case(cid, rng, workdir):
                         violation(res, "reported-optimised-but-improper-off", "improper %s is %.2f deg (GROMACS sign convention), "
                                   "target %s" % (list(it.atoms), phi, it.parameters[1]), w)
     # ---- what the generator reports -----------------------------------------------------------------------------
+    # several residue definitions under one name: a failure is reported per template, so a name needs at least as many
+    # reports as it has templates that miss their targets
+    off_by_name = {}
+    for block, coords in list(CAP["final"]):
+        rn = block.nodes[list(block.nodes)[0]]["resname"]
+        if rn in user_t or rn in user_v2 or any(r_["name"] == rn for r_, _k in reps if id(r_) in user_t2):
+            continue
+        bad_ = False
+        for sec in ("bonds", "constraints", "angles", "dihedrals"):
+            for it in block.interactions.get(sec, []):
+                if any(a not in coords for a in it.atoms):
+                    continue
+                X = [coords[a] for a in it.atoms]
+                try:
+                    if sec in ("bonds", "constraints"):
+                        bad_ |= abs(np.linalg.norm(X[0] - X[1]) - float(it.parameters[1])) > 0.05 + 1e-9
+                    elif sec == "angles":
+                        bad_ |= abs(ang(*X) - float(it.parameters[1])) > 5 + 1e-6
+                    elif it.parameters[0] == "2":
+                        bad_ |= abs(dihedral(*X) - float(it.parameters[1])) > 5 + 1e-6
+                except (ValueError, IndexError):
+                    pass
+        if bad_:
+            off_by_name[rn] = off_by_name.get(rn, 0) + 1
+    for rn, noff in off_by_name.items():
+        if noff > 1:
+            bump(res, "names_with_several_unoptimised_templates")
+        if CAP["nfailed"].get(rn, 0) < noff:
+            violation(res, "unoptimised-template-not-reported", "%d templates of residues named %s miss their targets, %d failure "
+                      "reports were issued for that name" % (noff, rn, CAP["nfailed"].get(rn, 0)), w)
     for block, coords in list(CAP["final"]):
         rn = block.nodes[list(block.nodes)[0]]["resname"]
         if rn in CAP["failed"] or rn in user_t or rn in user_v2 or any(r_["name"] == rn for r_, _k in reps if id(r_) in user_t2):
